@@ -77,6 +77,10 @@ Definition filter_args_gen (s : sig) (ign : list key) (meth : option (name * val
                                 tail_order_gen (fst d2vk) in
             ignore_loop_gen ign d4)).
 
+(* the test that sends a callable to the {'*': args, '**': kwargs} fallback, regenerated from the source *)
+Lemma takes_fallback_gen_eq m f : takes_fallback_gen m f = takes_fallback m f.
+Proof. destruct m, f; reflexivity. Qed.
+
 Theorem source_matches_model : forall s ign meth c,
   filter_args_gen s ign meth c = filter_args_model s ign meth c.
 Proof.
@@ -90,3 +94,4 @@ Proof.
   rewrite ignore_loop_gen_eq. reflexivity.
 Qed.
 Print Assumptions source_matches_model.
+Print Assumptions takes_fallback_gen_eq.
